@@ -583,7 +583,7 @@ def bounded_checks(tier, seed):
     d = json.loads(r.stdout.strip().splitlines()[-1])
     return [{"check": "module_catalogue", "tool": "griffe.visit vs. an independent `ast` walk of the same source (members, kinds, runtime flags, spans, decorator labels, "
              "overloads, accessors, parameters, extension event order); statement templates nested in if TYPE_CHECKING / else / try / for / class / __init__",
-             "bound": f"every compound template x every ordered pair of simple statements (19 x 19 x 14) + {n_random} random modules nested to depth 3",
+             "bound": f"every compound template x every ordered pair of simple statements (29 simple statements incl. docstring literals, multi-target and property forms; 16 compound templates incl. __init__ bodies) + {n_random} random modules nested to depth 3; members, kinds, spans, labels, docstrings, events against a source-level oracle",
              "cases": d["cases"], "failing": len(d["bad"]), "wall_s": round(time.time() - t0, 1), "violations": d["bad"]}]
 
 
